@@ -206,18 +206,25 @@ HUGE = 200000
 
 
 def expected(spec, kind, value):
-    """What the property demands: 'ok:<hex>' / 'err' (CPython raises), or ('minlen', n) when CPython
-    would have to build a text of n >= HUGE characters (not executed)."""
+    """What the property demands: 'ok:<hex>' / 'err' (CPython raises); ('minlen', n) when CPython would
+    have to build a padded text of n >= HUGE characters (not executed); None = no verdict (a float
+    precision >= HUGE: CPython would print that many digits)."""
     m = max_number(spec)
     if m >= HUGE:
         p = py_parse_spec(spec)
         if p is None or m >= 2 ** 63:
             return "err"        # not in the grammar / CPython: "Too many decimal digits in format string"
-        try:
-            format(value, spec.replace(str(m), "1"))
-        except (ValueError, OverflowError):
-            return "err"
-        return ("minlen", m)
+        if p.prec is not None and p.prec >= HUGE and kind != "s":
+            if kind == "f" or p.type in FLOAT_TYPES:
+                return None
+            return "err"        # "Precision not allowed in integer format specifier"
+        if p.width is not None and p.width >= HUGE:
+            i = spec.index(str(p.width))
+            try:
+                format(value, spec[:i] + "1" + spec[i + len(str(p.width)):])
+            except (ValueError, OverflowError):
+                return "err"
+            return ("minlen", p.width)
     try:
         t = format(value, spec)
     except (ValueError, OverflowError):
@@ -226,6 +233,8 @@ def expected(spec, kind, value):
 
 
 def matches(got, exp):
+    if exp is None:
+        return True
     if isinstance(exp, tuple):
         if got == "err":
             return True         # running out of memory is an acceptable way to fail
@@ -242,76 +251,108 @@ def nonascii(s):
 
 
 def shape(spec, kind, value):
-    """A-priori predicate on (spec, value): the known-finding key whose shape this input has, or None.
-    Mirrors `InDomain` of lean/PV/C18/Thm.lean (an input with shape None is inside the domain)."""
+    """A-priori predicate on (spec, value): the first known-finding key whose shape this input has, or
+    None.  Mirrors `InDomain` of lean/PV/C18/Thm.lean (an input with no shape is inside the domain)."""
+    ks = shapes(spec, kind, value)
+    return ks[0] if ks else None
+
+
+def shapes(spec, kind, value):
+    """all known-finding shapes of (spec, value)"""
+    out = []
     eff = spec
     if len(spec) >= 2 and spec[0] == "!" and spec[1] in "srab":
-        return "conv-prefix-accepted"
+        out.append("conv-prefix-accepted")
+        eff = spec[2:]
     p = py_parse_spec(eff)
-    if p is None:
-        return None
+    if p is not None:
+        _shapes(p, eff, kind, value, out)
+    return out
+
+
+def _repr_tie_even(v):
+    """the exact value of v has one more significant digit than repr(v), that digit is 5 and the digit
+    before it is even: CPython's shortest repr rounds half to even, Rust's Display rounds it up"""
+    from decimal import Decimal
+    ex = Decimal(abs(v)).as_tuple().digits
+    while len(ex) > 1 and ex[-1] == 0:
+        ex = ex[:-1]
+    sh = [int(c) for c in repr(abs(v)).split("e")[0] if c.isdigit()]
+    sh = [d for d in "".join(map(str, sh)).strip("0")]
+    return len(ex) == len(sh) + 1 and ex[-1] == 5 and ex[-2] % 2 == 0 and len(sh) >= 16
+
+
+def _shapes(p, eff, kind, value, out):
+    add = out.append
     if p.width is not None and p.width >= 2 ** 31:
-        return "width-wraps-i32"
+        add("width-wraps-i32")
     floaty = kind == "f" or (kind in "ib" and p.type in FLOAT_TYPES)
     numeric = kind in "ibf"
     if p.z:
-        return "z-flag-rejected" if floaty else None
+        if floaty:
+            add("z-flag-rejected")
+        return
     if kind == "s":
         if p.group or p.type not in (None, "s"):
-            return None
+            return
         if p.align == "=":
-            return "str-eq-align-accepted"
+            add("str-eq-align-accepted")
         if p.sign:
-            return "str-sign-accepted"
+            add("str-sign-accepted")
         if p.alt:
-            return "str-alt-accepted"
+            add("str-alt-accepted")
         w = p.width or 0
+        if p.prec is not None and 2 ** 31 <= p.prec < 2 ** 63:
+            add("precision-over-i32-rejected")
         if p.prec is not None:
-            if nonascii(value[:p.prec]) or (p.fill is not None and nonascii(p.fill) and w > len(value)):
-                return "str-precision-bytes"
+            if nonascii(value[:p.prec]) or (p.eff_fill is not None and nonascii(p.eff_fill) and w > len(value)):
+                add("str-precision-bytes")
             if p.prec < w:
-                return "str-precision-after-padding"
+                add("str-precision-after-padding")
         if p.zero and p.fill is None and p.align is None and w > len(value):
-            return "str-zero-flag-pads-left"
-        return None
+            add("str-zero-flag-pads-left")
+        return
     if kind == "b" and p.type is None:
-        return "bool-default-type-ignores-spec" if eff != "" else None
+        if eff != "":
+            add("bool-default-type-ignores-spec")
+        return
     if numeric and p.group and p.type in tuple("eEgG%"):
-        return "group-exp-type-panic"
-    if floaty and p.prec is not None and p.prec > 65535 - 2:
-        return "precision-over-65535-panic"
-    if kind in "ib" and floaty and abs(int(value)) > F64_MAX_INT and abs(int(value)) < 2 ** 1024 - 2 ** 970:
-        return "int-float-above-max-rejected"
+        add("group-exp-type-panic")
+    if floaty and p.prec is not None and p.prec > 65532:
+        add("precision-over-65535-panic")
+    if kind in "ib" and floaty and F64_MAX_INT < abs(int(value)) < 2 ** 1024 - 2 ** 970:
+        add("int-float-above-max-rejected")
     if kind in "ib" and p.type == "c":
         if p.prec is not None:
-            return "int-c-precision-accepted"
-        if 0xD800 <= int(value) <= 0xDFFF and not p.sign and not p.alt and not p.group:
-            return "int-c-surrogate-panic"
+            add("int-c-precision-accepted")
+        if 0xD800 <= int(value) <= 0xDFFF:
+            add("int-c-surrogate-panic")
         if int(value) >= 128 and (p.width or 0) > 1:
-            return "int-c-nonascii-width"
-        return None
+            add("int-c-nonascii-width")
+        return
     if kind == "f" and p.type is None and math.isfinite(value):
         v = value
-        if p.group and "e" in (repr(abs(v)) if p.prec is None else format(abs(v), ".%dg" % max(p.prec, 1))):
-            return "float-group-in-exponent-text"
+        if p.group and "e" in (repr(abs(v)) if p.prec is None else format(abs(v), ".%dg" % min(max(p.prec, 1), 800))):
+            add("float-group-in-exponent-text")
+        if p.prec is None and _repr_tie_even(v):
+            add("float-repr-tie-rounds-up")
         if p.prec is None and v != round(v) and abs(v - round(v)) < 2.0 ** -52 and 1e-4 <= abs(v) < 1e16:
-            return "float-repr-near-integer"
+            add("float-repr-near-integer")
         if p.prec is None and p.alt and "e" in repr(v) and "." not in repr(v):
-            return "float-default-type-alt-no-point"
+            add("float-default-type-alt-no-point")
         if p.prec == 0:
-            return "float-default-type-precision-zero"
-        if p.prec is not None and not p.alt:
-            t = format(abs(v), ".%dg" % p.prec)
+            add("float-default-type-precision-zero")
+        if p.prec is not None and p.prec >= 1 and not p.alt:
+            t = format(abs(v), ".%dg" % min(p.prec, 800))
             if "." not in t and "e" not in t:
-                return "float-default-type-precision-no-dot-zero"
+                add("float-default-type-precision-no-dot-zero")
     if kind == "f" and p.type == "%" and p.alt and p.prec == 0 and math.isfinite(value) and math.isinf(value * 100.0):
-        return "float-percent-overflow-alt"
+        add("float-percent-overflow-alt")
     if numeric and p.group and p.width is not None:
         if not p.zero_eq:
-            return "group-width-zero-pads"
-        if kind == "f" and not math.isfinite(value):
-            return "group-nonfinite-zero-pad"
-    return None
+            add("group-width-zero-pads")
+        elif kind == "f" and not math.isfinite(value):
+            add("group-nonfinite-zero-pad")
 
 
 # which observed failures a shape explains (so that a different failure on the same input is reported)
@@ -335,11 +376,13 @@ _EXPLAINS = {
     "float-group-in-exponent-text": lambda got, exp: got.startswith("ok:") and exp != "err",
     "float-repr-near-integer": lambda got, exp: got.startswith("ok:") and exp != "err",
     "float-default-type-alt-no-point": lambda got, exp: got.startswith("ok:") and exp != "err",
+    "float-repr-tie-rounds-up": lambda got, exp: got.startswith("ok:") and exp != "err",
     "float-default-type-precision-zero": lambda got, exp: got.startswith("ok:") and exp != "err",
     "float-default-type-precision-no-dot-zero": lambda got, exp: got.startswith("ok:") and exp != "err",
     "float-percent-overflow-alt": lambda got, exp: got.startswith("ok:") and exp != "err",
     "precision-over-65535-panic": lambda got, exp: got == "panic",
-    "width-wraps-i32": lambda got, exp: isinstance(exp, tuple) and (got == "panic" or got.startswith("ok:")),
+    "precision-over-i32-rejected": lambda got, exp: got == "err" and exp != "err",
+    "width-wraps-i32": lambda got, exp: (isinstance(exp, tuple) or exp == "err") and (got == "panic" or got.startswith("ok:")),
 }
 
 
@@ -366,9 +409,11 @@ def judge(req, impl_out):
         exp = expected(spec, k, v)
         if matches(got, exp):
             continue
-        key = shape(spec, k, v)
-        if key is not None and not _EXPLAINS[key](got, exp):
-            key = None
+        key = None
+        for cand in shapes(spec, k, v):
+            if _EXPLAINS[cand](got, exp):
+                key = cand
+                break
         bad.append((k, v, got, exp, key))
     return bad
 
@@ -432,21 +477,23 @@ PROBES = [
     ("float-group-in-exponent-text", ",", 1e100),
     ("float-repr-near-integer", "", 0.9999999999999999),
     ("float-default-type-alt-no-point", "#", 1e100),
+    ("float-repr-tie-rounds-up", "", 600377706905611.2),
     ("float-default-type-precision-zero", ".0", 0.5),
     ("float-default-type-precision-no-dot-zero", ".5", 1.0),
     ("float-percent-overflow-alt", "#.0%", 1.7976931348623157e308),
     ("precision-over-65535-panic", ".65536f", 1.0),
     ("width-wraps-i32", "4294967301", 1),
+    ("precision-over-i32-rejected", ".2147483648", "a"),
 ]
 
 REGRESSION = [
     ("012,", 1234567), ("0=12,", 1234567), ("08,", -1234), ("07,", 1234), ("06,", 1234), ("05,", 1234),
     ("#010_x", 123), ("#09_b", 255), ("04,", 123), ("+#012_X", 48879), ("_b", 255), ("_o", 4095),
     ("*^+#012,.3f", 123456.789), ("'>5", -12), ("x<05", 7), ("é^7", "ab"), ("日>4", "é"),
-    (".65535f", 0.5), (".65533g", 0.5), ("2147483647", ""), ("c", 0x10FFFF), ("c", 0x110000), ("c", -1),
+    (".65535f", 0.5), (".65532g", 0.5), ("70000", ""), ("c", 0x10FFFF), ("c", 0x110000), ("c", -1),
     ("e", 2 ** 53 + 1), (".17e", 2 ** 53 + 3), (".17e", 2 ** 54 + 2), (".17e", 2 ** 54 + 6), ("e", F64_MAX_INT),
     ("e", 2 ** 1024), ("%", 1.7976931348623157e308), (".3%", 0.12345), ("N", 1), ("s", 1), ("d", "a"),
-    ("18446744073709551615", 1), ("18446744073709551616", 1), (".2147483647", "a"), (".2147483648", "a"),
+    ("18446744073709551615", 1), ("18446744073709551616", 1), (".2147483647", "a"), (".2147483648", 1.0), (".9223372036854775808", "a"),
     ("2147483648", 1), ("9223372036854775808", 1), (",_", 1), ("_,", 1), (",,", 1), (".", 1), ("0", 1), ("00", 1),
     ("g", True), ("e", False), ("c", True), ("s", True), ("N", True), ("n", 1234567), ("n", 1234.5),
 ]
